@@ -28,6 +28,9 @@ PID = "C01"
 #  ('past2',)                   emit two events at now-2 and now-1 ns (not live, increasing stale times)
 #  ('emitrev', dt)              create a, b (in that order) at now+dt but return [b, a]
 #  ('crash', on)                set the *other* entity's crash flag
+#  ('bulk', n)                  return n plain events at now+1 (heap-size thresholds)
+#  ('bulkmix', n)               create n/2 daemon + n/2 plain events at now+2, cancel the daemon ones at once, return all
+#  ('genfut', d)                generator: park on a SimFuture resolved by an event at now+d, then sleep 1 ns, then emit
 LEAF = [("nop",)]
 BEH_FULL = (
     [("nop",)]
@@ -44,6 +47,9 @@ BEH_SMALL = [("nop",), ("emit", 0, 1, False), ("emit", 1, 2, False), ("gen", 1, 
              ("genside", 1), ("cancel", 2), ("emit", 1, 1, True), ("crash", True), ("emitrev", 1), ("past2",)]
 BEH_CRASH = [("nop",), ("gen", 1, 0), ("gen", 0, 1), ("genside", 1), ("crash", True), ("crash", False),
              ("emit", 1, 1, True), ("emit", 0, 1, False), ("cancel", 1)]
+BEH_BULK = [("nop",), ("bulk", 40), ("bulkmix", 40), ("cancel", 0), ("emit", 1, 1, True), ("gen", 1, 0)]
+BEH_FUT = [("nop",), ("genfut", 0), ("genfut", 1), ("genfut", 2), ("emit", 1, 1, True), ("emit", 2, 1, True),
+           ("emit", 1, 1, False), ("gen", 1, 1), ("cancel", 1)]
 KINDS = ["plain", "daemon", "cancelled"]
 STYLES = ["list", "separate", "reversed", "preconstruct", "preconstruct-hi"]
 # (end_ns or None, attach_control)
@@ -92,6 +98,20 @@ class Scripted(Entity):
             a_ = c.mk(now + beh[1], self, ("nop",), by=seq)
             b_ = c.mk(now + beh[1], self, ("nop",), by=seq)
             return [b_, a_]
+        if kind == "bulk":
+            return [c.mk(now + 1, self, ("nop",), by=seq) for _ in range(beh[1])]
+        if kind == "bulkmix":
+            h = beh[1] // 2
+            ds = [c.mk(now + 2, self, ("nop",), daemon=True, by=seq) for _ in range(h)]
+            for ev in ds:
+                ev.cancel()
+                c.reg[ev.context["metadata"]["seq"]]["cancel_key"] = (now, seq)
+            return ds + [c.mk(now + 2, self, ("nop",), by=seq) for _ in range(h)]
+        if kind == "genfut":
+            return self._genfut(beh[1], seq, event.daemon)
+        if kind == "resolve":
+            c.futs[beh[1]].resolve(("v", beh[1]))
+            return None
         if kind == "crash":
             other = c.ents[1 - c.ents.index(self)]
             other._crashed = beh[1]
@@ -109,6 +129,31 @@ class Scripted(Entity):
         c.resumes.append((seq, now))
         del c.procs[seq]
         return [c.mk(now + dt, self, ("nop",), by=seq)]
+
+    def _genfut(self, d, seq, daemon):
+        from happysimulator.core.sim_future import SimFuture
+        c = self.ctx
+        c.procs[seq] = daemon
+        now0 = self.now.nanoseconds
+        fut = SimFuture()
+        c.futs.append(fut)
+        idx = len(c.futs) - 1
+        c.proc_due[seq] = now0 + d
+        # the resolver inherits the daemon flag, so a daemon process never owns a primary event
+        yield 0.0, [c.mk(now0 + d, self, ("resolve", idx), daemon=daemon, by=seq)]
+        v = yield fut
+        now = self.now.nanoseconds
+        c.clock_obs.append(now)
+        c.resumes.append((seq, now))
+        if v != ("v", idx):
+            c.bad_values.append((seq, v))
+        c.proc_due[seq] = now + 1
+        yield 1e-9
+        now = self.now.nanoseconds
+        c.clock_obs.append(now)
+        c.resumes.append((seq, now))
+        del c.procs[seq]
+        return [c.mk(now, self, ("nop",), daemon=daemon, by=seq)]
 
     def _genside(self, d, seq, daemon):
         c = self.ctx
@@ -132,6 +177,8 @@ class Ctx:
         self.resumes = []
         self.toggles = []
         self.procs = {}
+        self.futs = []
+        self.bad_values = []
         self.proc_due = {}  # seq of the starting event -> ns at which its sleeping process is due to resume
         self.pre = []
         self.ents = []
@@ -213,6 +260,8 @@ def oracle(c: Ctx, program, style, mode):
             out.append(("clock-backwards", f"clock went from {prev}ns to {t}ns"))
             break
         prev = t
+    if c.bad_values:
+        out.append(("future-value", f"process of seq={c.bad_values[0][0]} resumed from its future with {c.bad_values[0][1]!r}"))
     # 3 exactly once
     seen = {}
     for i, (seq, now, et, _n) in enumerate(c.deliveries):
@@ -404,11 +453,16 @@ def main(tier, seed, only=None):
         fams.append(("p2-full", 2, BEH_FULL, (0, 1, 2), False, STYLES, MODES))
         fams.append(("p3-small", 3, BEH_SMALL, (1, 2), False, ["list", "preconstruct"], [(None, False), (2, False)]))
         fams.append(("p2-crash-2targets", 2, BEH_CRASH, (0, 1, 2), True, ["list", "reversed"], MODES))
+        fams.append(("p3-bulk", 3, BEH_BULK, (0, 1), False, ["list"], [(None, False), (3, True)]))
+        fams.append(("p3-futures", 3, BEH_FUT, (0, 1), False, ["list"], [(None, False), (None, True), (3, False)]))
     else:
         fams.append(("p1-full", 1, BEH_FULL, (0, 1, 2, 3), True, STYLES, MODES))
         fams.append(("p2-full-2targets", 2, BEH_FULL, (0, 1, 2), True, STYLES, MODES))
         fams.append(("p3-full", 3, BEH_FULL, (0, 1, 2), False, ["list", "preconstruct"], MODES))
         fams.append(("p4-small", 4, BEH_SMALL, (1, 2), False, ["list"], [(None, False), (2, False)]))
+        fams.append(("p2-crash-2targets", 2, BEH_CRASH, (0, 1, 2), True, STYLES, MODES))
+        fams.append(("p3-bulk", 3, BEH_BULK + [("bulk", 31), ("bulk", 33), ("bulkmix", 64)], (0, 1, 2), False, ["list", "reversed"], MODES))
+        fams.append(("p3-futures", 3, BEH_FUT, (0, 1, 2), True, ["list", "reversed"], MODES))
     for f in fams:
         if only and f[0] not in only:
             continue
